@@ -253,6 +253,9 @@ type LogBackendMap = map[string]*configpb.LogBackend
 // LogBackend objects. It returns an error unless all backends have unique
 // non-empty names and specifications.
 func BuildLogBackendMap(lbs *configpb.LogBackendSet) (LogBackendMap, error) {
+	if lbs == nil {
+		return nil, errors.New("missing log backend set")
+	}
 	lbm := make(LogBackendMap)
 	specs := make(map[string]bool)
 	for _, be := range lbs.Backend {
@@ -334,9 +337,12 @@ func ValidateLogConfigs(cfg []*configpb.LogConfig) error {
 // TODO(pavelkalinnikov): Replace the returned map with a fully fledged
 // ValidatedLogMultiConfig that contains a ValidatedLogConfig for each log.
 func ValidateLogMultiConfig(cfg *configpb.LogMultiConfig) (LogBackendMap, error) {
-	backendMap, err := BuildLogBackendMap(cfg.Backends)
+	backendMap, err := BuildLogBackendMap(cfg.GetBackends())
 	if err != nil {
 		return nil, err
+	}
+	if cfg.GetLogConfigs() == nil {
+		return nil, errors.New("missing log configs")
 	}
 
 	if err := validateConfigs(cfg.GetLogConfigs().GetConfig()); err != nil {
